@@ -92,7 +92,7 @@ CLAIMED = {
          "lifts to Send/Receive for every script (any number and timing of EINTR); correspondence with 0-5 injected EINTR results per wait.", "5 C16",
          TB + "EINTR injected at the libc boundary by the virtual OS.",
          "Coq proof (poll retry loop, for all scripts) + correspondence with injected EINTR"),
- "C14": ("proof", "Theorems for EVERY fault overlay and script: tcp/udp/acceptor_constructor_ledger and accept_ledger (success only if no set-up call failed; on failure the FIRST failing call's errno is "
+ "C14": ("proof", "Theorems for EVERY fault overlay and script: tcp/udp/acceptor/driver_constructor_ledger and accept_ledger (success only if no set-up call failed; on failure the FIRST failing call's errno is "
          "thrown as std::system_error, nothing is attempted after it, and what had been opened is closed exactly once), first_failure_is_thrown; ledger_balanced_all_programs / everything_destroyed_nothing_leaked (EVERY program over the synchronous constructors, accept and destruction that catches what is thrown: opened = closed + held as multisets, held descriptors distinct); silent_drop_refuted: the driver-side clause is false for AcceptorAsync / "
          "SocketUdpAsync (witness, recorded as known finding). Correspondence + monitor: fault enumeration - every position of the system-call trace of a scenario set covering every public constructor and "
          "operation failed in turn with each plausible errno (set-up calls through an overlay, scripted calls through the script; pairs sampled); compared with the model entry by entry; monitored on the "
